@@ -33,7 +33,9 @@ def write_if_changed(name, text):
 
 def parse(relpath):
     with open(os.path.join(REPO, relpath)) as f:
-        return ast.parse(f.read(), filename=relpath)
+        tree = ast.parse(f.read(), filename=relpath)
+    load_const_env(tree)      # constants of the module now being read (used by `_const_int`)
+    return tree
 
 def class_methods(tree, cls):
     for node in tree.body:
@@ -321,10 +323,34 @@ def gen_tables():
 # AST extraction: fixed-offset header layouts
 # ---------------------------------------------------------------------------------------------
 
+_CONST_ENV = {}     # module-level names bound once to a constant integer expression, of the module being read
+
+def load_const_env(tree):
+    """`NAME = 4`, `NAME: int = 8 * 5` at module level (a name assigned twice is dropped: not a constant)"""
+    global _CONST_ENV
+    _CONST_ENV = {}
+    seen = set()
+    for node in tree.body:
+        tgt = val = None
+        if isinstance(node, ast.Assign) and len(node.targets) == 1 and isinstance(node.targets[0], ast.Name):
+            tgt, val = node.targets[0].id, node.value
+        elif isinstance(node, ast.AnnAssign) and isinstance(node.target, ast.Name) and node.value is not None:
+            tgt, val = node.target.id, node.value
+        if tgt is None: continue
+        if tgt in seen:
+            _CONST_ENV.pop(tgt, None); continue
+        seen.add(tgt)
+        try:
+            _CONST_ENV[tgt] = _const_int(val)
+        except TranslatorError:
+            pass
+
 def _const_int(node):
-    """evaluate a constant integer expression (literals, + - * // only)"""
-    if isinstance(node, ast.Constant) and isinstance(node.value, int):
+    """evaluate a constant integer expression (literals, module-level integer constants, + - * // only)"""
+    if isinstance(node, ast.Constant) and isinstance(node.value, int) and not isinstance(node.value, bool):
         return node.value
+    if isinstance(node, ast.Name) and node.id in _CONST_ENV:
+        return _CONST_ENV[node.id]
     if isinstance(node, ast.BinOp) and isinstance(node.op, (ast.Add, ast.Sub, ast.Mult, ast.FloorDiv)):
         a, b = _const_int(node.left), _const_int(node.right)
         return {ast.Add: a + b, ast.Sub: a - b, ast.Mult: a * b, ast.FloorDiv: a // b if b else 0}[type(node.op)]
